@@ -231,3 +231,16 @@ async def async_repeated_overlapping_positions_instance(block: bytes, d1: bytes,
     want = want[0:366] + d2 + want[368:]
     want = want[0:365] + d3 + want[367:]
     ensures("applied-once-each-in-arrival-order", spa.struct.status_block == want)
+
+
+# the acknowledgement's sequence number is drawn from the connection's counter: its contract (assumed above, seq_*_contract)
+# is discharged here too, on the real counter of both connection classes (shared with C16)
+from contracts import c16_seq
+harness(prop="C05", target="geckolib.driver.udp_socket:GeckoUdpSocket.get_and_increment_sequence_counter",
+        name="threaded_counter_stays_in_the_protocol_range")(c16_seq.sync_counter_step)
+harness(prop="C05", target="geckolib.driver.async_udp_protocol:GeckoAsyncUdpProtocol.get_and_increment_sequence_counter",
+        name="async_counter_stays_in_the_protocol_range")(c16_seq.async_counter_step)
+harness(prop="C05", target="geckolib.driver.udp_socket:GeckoUdpSocket.__init__",
+        name="threaded_counter_starts_inside_its_invariant")(c16_seq.sync_init_establishes_invariant)
+harness(prop="C05", target="geckolib.driver.async_udp_protocol:GeckoAsyncUdpProtocol.__init__",
+        name="async_counter_starts_inside_its_invariant")(c16_seq.async_init_establishes_invariant)
